@@ -278,6 +278,9 @@ def _rooted(fi: Any, q: Any, a: ast.AST, site: ast.AST, seen: set[str]) -> tuple
                 if isinstance(d.value, ast.Call) and norm_src(d.value.func) == 'os.path.join' and d.value.args and \
                         norm_src(d.value.args[0]) == a.id:
                     continue  # inductive step: extends an already rooted value
+                if isinstance(d.value, ast.Call) and norm_src(d.value.func) == 'os.open' and d.value.args and \
+                        norm_src(d.value.args[0]) == a.id:
+                    continue  # inductive step: a descriptor opened on an already rooted value
                 gd = q.guards(d)
                 if ('self.is_abs_pattern', 'T') in gd or ('is_abs', 'T') in gd:
                     res.append((True, 'assigned under an absolute-path test'))
@@ -604,6 +607,25 @@ def rule_case_fold_agreement(ctx: Ctx, rule: str) -> None:
     ginit.rule_derived_attrs(ctx, rule, which={'case_sensitive'})
 
 
+def store_rows(repo: Any) -> list:
+    """Decision table of _GlobSplit.store(value, l, dir_only) with its effects; each row reduced to the part it stores."""
+    from .common import cached, tabulate_method
+    from ..symeval import focus, _tag
+
+    def build() -> list:
+        _ev, paths = tabulate_method(repo, 'glob', '_GlobSplit.store', {'flags': BV('sflags')}, [Opaque('value'), Opaque('l'), Opaque('dir_only')],
+                                     inline=False)
+        out = []
+        for p in paths:
+            focus(p)
+            parts = p.calls_to('glob:_GlobPart')
+            comp = p.calls_to('_wcparse:_compile')
+            puts = [e for e in p.events if (e[0] == 'call' and e[1].replace("'", '') in ('l.append',)) or (e[0] == 'setitem' and _tag(e[1]).rstrip("'") == 'l')]
+            out.append((p, parts, comp, puts))
+        return out
+    return cached(repo, 'cglob:store_rows', build)
+
+
 def rule_magic_classification(ctx: Ctx, rule: str) -> None:
     ctx.text(rule, "_GlobSplit.is_magic uses the symbol table returned by _get_magic_symbols with the split object's own flags "
                    '(minus NEGATE); a part is compiled iff it is magic, with the same flags')
@@ -614,111 +636,258 @@ def rule_magic_classification(ctx: Ctx, rule: str) -> None:
     ok = len(ms) == 1 and norm_src(ms[0].value) == '_wcparse._get_magic_symbols(pattern, self.unix, self.flags)[0]'
     ctx.ob(rule, 'glob:_GlobSplit.__init__/magic_symbols', ok, repo.loc('glob', gi.node), '_get_magic_symbols(pattern, self.unix, self.flags)[0]',
            norm_src(ms[0].value) if ms else 'none', witness="glob('@(a)', flags=EXTGLOB): the segment must be compiled, not looked up literally")
+    from .common import tabulate_method, passes_through, decided_bits
+    from ..symeval import focus, _tag
     st = repo.func('glob', '_GlobSplit.store')
-    q = fq(st)
-    comp = q.calls(lambda s: s == '_wcparse._compile')
-    ok2 = len(comp) == 1 and q.guarded(comp[0], 'magic', 'T') and [norm_src(a) for a in comp[0].args] == ['value', 'self.flags']
-    ctx.ob(rule, 'glob:_GlobSplit.store/compile-iff-magic', ok2, repo.loc('glob', st.node), 'if magic: v = _wcparse._compile(value, self.flags)',
-           norm_src(comp[0]) if comp else 'none')
-    mg = [s for s in walk_no_nested(st.node) if isinstance(s, ast.Assign) and norm_src(s.targets[0]) == 'magic']
-    ctx.ob(rule, 'glob:_GlobSplit.store/magic-definition', len(mg) == 1 and norm_src(mg[0].value) == 'self.is_magic(value)', repo.loc('glob', st.node),
-           'magic = self.is_magic(value)', norm_src(mg[0].value) if mg else 'none')
+    bad_c, bad_m = [], []
+    n = 0
+    for p, parts, comp, puts in store_rows(repo):
+        focus(p)
+        if not parts:
+            continue
+        n += 1
+        magic = p.decisions.get('glob:_GlobSplit.is_magic(value)')
+        if magic is None:
+            bad_m.append('a part is stored without asking is_magic(value)')
+            continue
+        if len(comp) != (1 if magic else 0):
+            bad_c.append(f'magic={magic}: {len(comp)} compile(s)')
+        elif comp:
+            a_ = comp[0][1]
+            if len(a_) != 2 or a_[0] != Opaque('value') or not passes_through(a_[1], 'sflags', 0, decided_bits(p, 'sflags')):
+                bad_c.append(f'_compile({[_tag(x) for x in a_]})')
+        f0 = parts[0][1][0] if parts[0][1] else None
+        want = f'_wcparse:_compile(value, {_tag(comp[0][1][1])})' if magic and comp and len(comp[0][1]) == 2 else 'value'
+        if _tag(f0) != want:
+            bad_c.append(f'magic={magic}: pattern field {_tag(f0)[:60]}')
+    ctx.ob(rule, 'glob:_GlobSplit.store/compile-iff-magic', not bad_c and n >= 8, repo.loc('glob', st.node),
+           'pattern field = _wcparse._compile(value, self.flags) iff is_magic(value), else the text itself', f'{n} rows agree' if not bad_c else sorted(set(bad_c))[0])
+    ctx.ob(rule, 'glob:_GlobSplit.store/magic-definition', not bad_m and n >= 8, repo.loc('glob', st.node), 'magic = self.is_magic(value)',
+           'as expected' if not bad_m else bad_m[0])
     im = repo.func('glob', '_GlobSplit.is_magic')
-    loops = [l for l in walk_no_nested(im.node) if isinstance(l, ast.For)]
-    ok3 = len(loops) == 1 and norm_src(loops[0].iter) == 'self.magic_symbols' and \
-        any(isinstance(x, ast.Compare) and norm_src(x) == 'c in name' for x in ast.walk(loops[0]))
-    ctx.ob(rule, 'glob:_GlobSplit.is_magic/shape', ok3, repo.loc('glob', im.node), 'any(c in name for c in self.magic_symbols)', str(ok3))
+    _ev, ips = tabulate_method(repo, 'glob', '_GlobSplit.is_magic', {}, [Opaque('name')], inline=False)
+    atom = 'any(comp(elem(self.magic_symbols) in name for self.magic_symbols))'
+    ok3 = len(ips) == 2 and all(list(p.decisions) == [atom] and p.ret is p.decisions[atom] for p in ips) or \
+        (len(ips) == 1 and ips[0].ret == Opaque(atom))
+    ctx.ob(rule, 'glob:_GlobSplit.is_magic/shape', ok3, repo.loc('glob', im.node), 'any(c in name for c in self.magic_symbols)',
+           str([(p.decisions, p.ret) for p in ips])[:160] if not ok3 else 'as expected')
 
 
 def rule_specials_and_start(ctx: Ctx, rule: str) -> None:
-    ctx.text(rule, '`.` and `..` come only from the two fake entries of _iter; literal first segments that are `.`/`..` or absolute '
-                   'bypass the case-discovering scan; _get_starting_paths never returns the fake entries')
+    ctx.text(rule, 'Glob._iter and Glob._get_starting_paths as decision tables with yield / call events: `.` and `..` come only from the '
+                   'two fake entries (for each of self.specials: yield it as a hidden non-link directory) and only after os.scandir '
+                   'succeeded; a scanned entry is yielded as (name, is_dir, hidden, is_link) exactly when not dir_only or it is a '
+                   'directory, with is_link = is_symlink() for directories and False otherwise; literal first segments that are `.` / '
+                   '`..` or absolute bypass the case-discovering scan; the scan keeps a name iff it is not a fake entry and the matcher '
+                   '(if any) accepts it')
+    from .common import tabulate_method
+    from ..symeval import focus, _tag
     repo = ctx.repo
     it = repo.func('glob', 'Glob._iter')
-    ys = [y for y in walk_no_nested(it.node) if isinstance(y, ast.Yield)]
-    fake = [y for y in ys if norm_src(y.value) == '(special, True, True, False)']
-    ok = len(fake) == 1 and any(isinstance(l, ast.For) and norm_src(l.iter) == 'self.specials' and any(y is fake[0] for y in ast.walk(l))
-                                for l in walk_no_nested(it.node))
-    ctx.ob(rule, 'glob:Glob._iter/fake-entries', ok, repo.loc('glob', it.node), 'for special in self.specials: yield special, True, True, False',
-           f'{len(fake)} fake-entry yield(s)', witness="glob('.*', flags=SCANDOTDIR) returns `.` and `..` as hidden directories, never as links")
-    if fake:
-        q0 = fq(it)
-        withs = [n.id for n in q0.cfg.nodes if n.kind == 'with' and any('os.scandir' in norm_src(i.context_expr) for i in n.ast.items)]
-        okw = bool(withs) and any(q0.cfg.dominates(w, q0.node_of(fake[0])) for w in withs)
-        ctx.ob(rule, 'glob:Glob._iter/fake-entries-after-scandir', okw, repo.loc('glob', fake[0]),
-               'the fake `.`/`..` entries are yielded only after os.scandir succeeded (inside the with block)',
-               'inside the scandir block' if okw else 'yielded before the directory is opened',
-               witness="with a regular file f, glob('f/..') returns ['f/..'] although the path does not exist")
-    real = [y for y in ys if y not in fake]
-    okr = len(real) == 1 and norm_src(real[0].value) == '(f.name, is_dir, hidden, is_link)'
-    q = fq(it)
-    okr = okr and q.guarded(real[0], lambda s: s in ('dir_only', 'is_dir'), 'T') or (okr and equivalent_tests(
-        next((n.test for n in walk_no_nested(it.node) if isinstance(n, ast.If) and any(y is real[0] for y in ast.walk(n))), ast.Constant(value=False)),
-        'not dir_only or is_dir'))
-    ctx.ob(rule, 'glob:Glob._iter/entry-yield', okr, repo.loc('glob', it.node), 'if not dir_only or is_dir: yield f.name, is_dir, hidden, is_link', str(okr),
+    site = repo.loc('glob', it.node)
+    _ev, paths = tabulate_method(repo, 'glob', 'Glob._iter', {}, [Opaque('curdir'), Opaque('dir_only'), Opaque('deep')], inline=False, max_paths=20000)
+    bad_f, bad_w, bad_y, bad_l = [], [], [], []
+    n_fake = n_real = 0
+    for p in paths:
+        focus(p)
+        scans = [i for i, e in enumerate(p.events) if e[0] == 'call' and e[1] == 'os.scandir']
+        ys = [(i, e) for i, e in enumerate(p.events) if e[0] == 'yield']
+        fakes = [(i, e) for i, e in ys if isinstance(e[1], tuple) and len(e[1]) == 4 and e[1][0] == Opaque('elem(self.specials)')]
+        reals = [(i, e) for i, e in ys if (i, e) not in fakes]
+        if p.raised or not scans:
+            if ys:
+                bad_w.append('entries yielded although the directory was not opened')
+            continue
+        if len(fakes) != 1 or fakes[0][1][1][1:] != (True, True, False) or not any(c.startswith('for:self.specials') for c in fakes[0][1][3]):
+            bad_f.append(f'{len(fakes)} fake-entry yields: {[ _tag(e[1])[:60] for _i, e in fakes]}')
+        else:
+            n_fake += 1
+            if fakes[0][0] < scans[0]:
+                bad_w.append('fake entries yielded before os.scandir')
+        ent = [k for k in p.decisions if k.endswith('.is_dir()') and k.startswith('elem(os.scandir(')]
+        isdir = p.decisions.get(ent[0]) if ent else None
+        donly = p.decisions.get('dir_only')
+        errs = [k for k in p.decisions if k.startswith('exc')]
+        want = (donly is False) or (isdir is True)
+        if donly is None and isdir is None and not reals:
+            continue  # the entry loop did not reach the decision (an entry raised OSError)
+        if len(reals) != (1 if want else 0):
+            bad_y.append(f'dir_only={donly} is_dir={isdir}: {len(reals)} entry yield(s)')
+            continue
+        if reals:
+            n_real += 1
+            v = reals[0][1][1]
+            okv = isinstance(v, tuple) and len(v) == 4 and _tag(v[0]).endswith(').name') and _tag(v[0]).startswith('elem(os.scandir(') and \
+                (v[1] is isdir or _tag(v[1]) == ent[0] if ent else _tag(v[1]).endswith('.is_dir()')) and _tag(v[2]).startswith('glob:Glob._is_hidden(elem(os.scandir(')
+            if not okv:
+                bad_y.append(f'yields {_tag(v)[:100]}')
+            else:
+                link = v[3]
+                if isdir is True:
+                    okl = _tag(link).endswith('.is_symlink()') and _tag(link).startswith('elem(os.scandir(')
+                elif isdir is False:
+                    okl = link is False
+                else:
+                    okl = False
+                if not okl:
+                    bad_l.append(f'is_dir={isdir}: is_link = {_tag(link)[:60]}')
+    if n_fake < 2 or n_real < 2:
+        raise AnalysisError(f'Glob._iter: only {n_fake} fake-entry / {n_real} entry rows')
+    ctx.ob(rule, 'glob:Glob._iter/fake-entries', not bad_f, site, 'for each of self.specials: yield it, True, True, False', f'{n_fake} rows agree' if not bad_f else bad_f[0],
+           witness="glob('.*', flags=SCANDOTDIR) returns `.` and `..` as hidden directories, never as links")
+    ctx.ob(rule, 'glob:Glob._iter/fake-entries-after-scandir', not bad_w, site, 'nothing is yielded unless os.scandir succeeded, the fake entries come after it',
+           'as expected' if not bad_w else bad_w[0], witness="with a regular file f, glob('f/..') returns ['f/..'] although the path does not exist")
+    ctx.ob(rule, 'glob:Glob._iter/entry-yield', not bad_y, site, 'not dir_only or is_dir: yield entry.name, is_dir, hidden, is_link', f'{n_real} rows agree' if not bad_y else sorted(set(bad_y))[0],
            witness="glob('*/') must return directories only")
-    il = [s for s in walk_no_nested(it.node) if isinstance(s, ast.Assign) and norm_src(s.targets[0]) == 'is_link']
-    vals = sorted(norm_src(s.value) for s in il)
-    okl = vals == ['False', 'f.is_symlink()'] and all(q.guarded(s, 'is_dir', 'T') for s in il if norm_src(s.value) == 'f.is_symlink()')
-    ctx.ob(rule, 'glob:Glob._iter/is_link', okl, repo.loc('glob', it.node), 'is_link = f.is_symlink() for directories, False otherwise', str(vals),
+    ctx.ob(rule, 'glob:Glob._iter/is_link', not bad_l, site, 'is_link = entry.is_symlink() for directories, False otherwise', 'as expected' if not bad_l else sorted(set(bad_l))[0],
            witness="glob('**', GLOBSTAR) must not descend a symlinked directory")
     sp = repo.func('glob', 'Glob._get_starting_paths')
-    ifs = [n for n in sp.node.body if isinstance(n, ast.If)]
-    ok2 = bool(ifs) and equivalent_tests(ifs[0].test, 'not self.is_abs_pattern and not self._is_parent(curdir) and not self._is_this(curdir)')
-    ctx.ob(rule, 'glob:Glob._get_starting_paths/guard', ok2, repo.loc('glob', sp.node), 'scan unless absolute, `.` or `..`',
-           norm_src(ifs[0].test) if ifs else 'none', witness="glob('../x') must follow `..` as written")
-    flt = [c for c in walk_no_nested(sp.node) if isinstance(c, ast.If) and 'file not in self.specials' in norm_src(c.test)]
-    ok3 = bool(flt) and equivalent_tests(flt[0].test, 'file not in self.specials and (matcher is None or matcher(file))')
-    ctx.ob(rule, 'glob:Glob._get_starting_paths/filter', ok3, repo.loc('glob', sp.node), 'file not in self.specials and (matcher is None or matcher(file))',
-           norm_src(flt[0].test) if flt else 'none')
+    _ev, sps = tabulate_method(repo, 'glob', 'Glob._get_starting_paths', {}, [Opaque('curdir'), Opaque('dir_only')], inline=False)
+    bad_g, bad_k = [], []
+    n_scan = 0
+    for p in sps:
+        focus(p)
+        d = p.decisions
+        scan = p.calls_to('glob:Glob._iter')
+        literal = d.get('self.is_abs_pattern') is True or d.get('glob:Glob._is_parent(curdir)') is True or d.get('glob:Glob._is_this(curdir)') is True
+        if literal:
+            if scan or not (isinstance(p.ret, list) and len(p.ret) == 1 and p.ret[0] == (Opaque('curdir'), True)):
+                bad_g.append(f'literal start: returns {_tag(p.ret)[:60]}, {len(scan)} scan(s)')
+            continue
+        if len(scan) != 1 or [_tag(x) for x in scan[0][1]] != ['None', 'dir_only', 'False']:
+            bad_g.append(f'scan: {[[_tag(x) for x in c[1]] for c in scan]}')
+            continue
+        n_scan += 1
+        S = [v for k, v in d.items() if k.endswith('[0] in self.specials') and k.startswith('elem(')]
+        N = d.get('glob:Glob._get_matcher(curdir) is not None')
+        Mt = [v for k, v in d.items() if k.startswith('glob:Glob._get_matcher(curdir)(elem(')]
+        want = (S == [False]) and (N is False or Mt == [True])
+        apps = [e for e in p.of('call') if e[1].endswith('.append')]
+        kept = bool(apps) or (isinstance(p.ret, Opaque) and p.ret.tag.startswith('comp(('))
+        if len(S) != 1 or kept != want:
+            bad_k.append(f'special={S} matcher-present={N} matcher-accepts={Mt}: kept={kept}')
+        elif apps:
+            v = apps[0][2][0]
+            if not (isinstance(v, tuple) and len(v) == 2 and _tag(v[0]).endswith(')[0]') and _tag(v[1]).endswith(')[1]')):
+                bad_k.append(f'keeps {_tag(v)[:60]}')
+    ctx.ob(rule, 'glob:Glob._get_starting_paths/guard', not bad_g and n_scan >= 2, repo.loc('glob', sp.node),
+           'absolute pattern, `.` or `..`: [(curdir, True)] without scanning; otherwise scan the root with _iter(None, dir_only, False)',
+           'as expected' if not bad_g else bad_g[0], witness="glob('../x') must follow `..` as written")
+    ctx.ob(rule, 'glob:Glob._get_starting_paths/filter', not bad_k and n_scan >= 2, repo.loc('glob', sp.node),
+           'a scanned name is kept iff it is not in self.specials and (there is no matcher or the matcher accepts it)', f'{n_scan} rows agree' if not bad_k else sorted(set(bad_k))[0],
+           witness="glob('ab*') must not start from `.` or `..`")
 
 
 def rule_globstar_handover(ctx: Ctx, rule: str) -> None:
-    ctx.text(rule, 'in Glob._glob the globstar arm descends with deep=True and globstar_follow=is_globstarlong, yields the zero-segment '
-                   'result only when globstar_end ∧ curdir, and hands every deep result to the part after next; the file arm does '
-                   'not recurse; the directory arm recurses one level')
+    ctx.text(rule, 'Glob._glob(curdir, part, rest) as a decision table with call / yield events: a magic globstar part takes the '
+                   'following part (if any) as the thing to find at every depth and searches with deep=True, '
+                   'globstar_follow=part.is_globstarlong; when nothing follows and curdir is non-empty it first yields (curdir + '
+                   'separator, True); a part that is not dir_only searches one level and yields what is found; a dir_only part '
+                   'searches one level for directories; in the globstar and directory arms every result is handed to _glob with the '
+                   'next remaining part and a copy of the rest, or yielded when no part remains')
+    from .common import tabulate_method
+    from ..symeval import focus, _tag
     repo = ctx.repo
     gl = repo.func('glob', 'Glob._glob')
-    q = fq(gl)
-    calls = q.calls(lambda s: s == 'self._glob_dir')
-    ctx.floor(rule, '_glob_dir calls in _glob', len(calls), 3)
-    arms = {}
-    for c in calls:
-        g = q.guards(c)
-        if ('is_magic', 'T') in g and ('is_globstar', 'T') in g:
-            arms['globstar'] = c
-        elif ('dir_only', 'F') in g:
-            arms['file'] = c
+    site = repo.loc('glob', gl.node)
+    _ev, paths = tabulate_method(repo, 'glob', 'Glob._glob', {}, [Opaque('curdir'), Opaque('part'), Opaque('rest')], inline=False, max_paths=5000)
+    bad = {'globstar-arm': [], 'file-arm': [], 'dir-arm': [], 'zero-segment': [], 'hand-over': [], 'globstar_end': []}
+    seen = {'globstar': 0, 'file': 0, 'dir': 0}
+    GD, GM, G = 'glob:Glob._glob_dir', 'glob:Glob._get_matcher', 'glob:Glob._glob'
+    for p in paths:
+        focus(p)
+        d = p.decisions
+        star = d.get('part.is_magic') is True and d.get('part.is_globstar') is True
+        if any(k.endswith('.pop(0) is not None') and v and d.get(k[:-len(' is not None')]) is False for k, v in d.items()):
+            continue  # a part that is not None but falsy: _GlobPart is a six-field tuple, always truthy
+        gds = p.calls_to(GD)
+        if len(gds) != 1:
+            bad['globstar-arm' if star else 'dir-arm'].append(f'{len(gds)} searches on one path')
+            continue
+        name, a, k, _c = gds[0]
+        b = {'curdir': a[0] if a else k.get('curdir'), 'matcher': a[1] if len(a) > 1 else k.get('matcher'),
+             'dir_only': a[2] if len(a) > 2 else k.get('dir_only', False), 'deep': a[3] if len(a) > 3 else k.get('deep', False),
+             'globstar_follow': a[4] if len(a) > 4 else k.get('globstar_follow', False)}
+        res = f'{GD}(' + ', '.join([_tag(x) for x in a] + [f'{kk}={_tag(v)}' for kk, v in k.items()]) + ')'
+        pops = [e for e in p.of('call') if e[1].replace("'", '') == 'rest.pop' and e[2] == [0]]
+        ys = p.of('yield')
+        rec = p.calls_to(G)
+
+        def popped(i: int) -> str:
+            return 'rest' + "'" * i + '.pop(0)'
+
+        def handover(after: str | None, arm: str) -> None:
+            """after: tag of the part to continue with (None: no pop happened)."""
+            elem = f'elem({res})'
+            want_rec = after is not None and (d.get(after) is True or (after not in d and d.get(f'{after} is not None') is True))
+            final = ys[-1][1] if ys else None
+            if want_rec:
+                okh = len(rec) == 1 and [_tag(x) for x in rec[0][1]] == [f'{elem}[0]', after, popped_rest + '[:]'] and not rec[0][2] and \
+                    isinstance(final, tuple) and final[0] == 'from' and _tag(final[1]).startswith(f'{G}(')
+            else:
+                okh = not rec and isinstance(final, tuple) and len(final) == 2 and final[0] != 'from' and \
+                    [_tag(x) for x in final] == [f'{elem}[0]', f'{elem}[1]']
+            if not okh:
+                bad['hand-over'].append(f'{arm}: continues with {after} (truthy={d.get(after) if after else None}): {len(rec)} recursive call(s), last yield {_tag(final)[:70] if final is not None else None}')
+
+        if star:
+            seen['globstar'] += 1
+            has_rest = d.get('rest')
+            follow = popped(0) if has_rest else None
+            end = (follow is None) or d.get(f'{follow} is not None') is False
+            if follow is not None and f'{follow} is not None' not in d:
+                bad['globstar_end'].append('the end of the globstar is not decided by `following is None`')
+            tgt = 'None' if end else f'{follow}.pattern'
+            donly = 'part.dir_only' if end else f'{follow}.dir_only'
+            okg = _tag(b['curdir']) == 'curdir' and _tag(b['matcher']) == f'{GM}({tgt})' and _tag(b['dir_only']) == donly and b['deep'] is True and \
+                _tag(b['globstar_follow']) == 'part.is_globstarlong'
+            if not okg:
+                bad['globstar-arm'].append(f'end={end}: {res[:140]}')
+            zero = [y for y in ys if isinstance(y[1], tuple) and len(y[1]) == 2 and _tag(y[1][0]) == 'os.path.join(curdir, self.empty)' and y[1][1] is True]
+            want_zero = end and d.get('curdir') is True
+            if len(zero) != (1 if want_zero else 0) or (end and 'curdir' not in d) or \
+                    (zero and p.events.index(next(e for e in p.events if e[0] == 'yield' and e[1] is zero[0][1])) >
+                     p.events.index(next(e for e in p.events if e[0] == 'call' and e[1] == GD))):
+                bad['zero-segment'].append(f'end={end} curdir={d.get("curdir")}: {len(zero)} zero-segment yield(s)')
+            # the part after the one searched for
+            npop = len(pops)
+            if has_rest:
+                # second pop only if something is left
+                rest1 = "rest'"
+                left = d.get(rest1)
+                after = ("rest'" + '.pop(0)') if left else None
+                popped_rest = "rest''" if left else "rest'"
+            else:
+                after = None
+                popped_rest = 'rest'
+            handover(after, 'globstar')
+        elif d.get('part.dir_only') is False:
+            seen['file'] += 1
+            okf = _tag(b['curdir']) == 'curdir' and _tag(b['matcher']) == f'{GM}(part.pattern)' and b['dir_only'] is False and b['deep'] is False and \
+                b['globstar_follow'] is False and not rec and len(ys) == 1 and isinstance(ys[0][1], tuple) and ys[0][1][0] == 'from' and _tag(ys[0][1][1]) == res
+            if not okf:
+                bad['file-arm'].append(res[:120])
         else:
-            arms['dir'] = c
-    for name in ('globstar', 'file', 'dir'):
-        if name not in arms:
-            ctx.ob(rule, f'glob:Glob._glob/{name}-arm', False, repo.loc('glob', gl.node), 'arm present', 'not found')
-    if 'globstar' in arms:
-        c = arms['globstar']
-        kw = {k.arg: norm_src(k.value) for k in c.keywords}
-        ok = kw.get('deep') == 'True' and kw.get('globstar_follow') == 'is_globstarlong' and [norm_src(a) for a in c.args] == ['curdir', 'matcher', 'dir_only']
-        ctx.ob(rule, 'glob:Glob._glob/globstar-arm', ok, repo.loc('glob', c), '_glob_dir(curdir, matcher, dir_only, deep=True, globstar_follow=is_globstarlong)',
-               norm_src(c), witness="glob('**/x', GLOBSTAR) must search all depths; `***` follows links")
-    if 'file' in arms:
-        c = arms['file']
-        ok = [norm_src(a) for a in c.args] == ['curdir', 'matcher'] and not c.keywords
-        ctx.ob(rule, 'glob:Glob._glob/file-arm', ok, repo.loc('glob', c), '_glob_dir(curdir, matcher) -- no recursion', norm_src(c))
-    if 'dir' in arms:
-        c = arms['dir']
-        ok = [norm_src(a) for a in c.args] == ['curdir', 'matcher', 'True'] and not c.keywords
-        ctx.ob(rule, 'glob:Glob._glob/dir-arm', ok, repo.loc('glob', c), '_glob_dir(curdir, matcher, True)', norm_src(c))
-    zero = [y for y in walk_no_nested(gl.node) if isinstance(y, ast.Yield) and 'self.empty' in norm_src(y.value)]
-    okz = len(zero) == 1 and q.guarded(zero[0], 'globstar_end', 'T') and q.guarded(zero[0], 'curdir', 'T')
-    ctx.ob(rule, 'glob:Glob._glob/zero-segment', okz, repo.loc('glob', zero[0] if zero else gl.node), 'if globstar_end and curdir: yield os.path.join(curdir, self.empty), True',
-           str(okz), witness="glob('d/**', GLOBSTAR) includes 'd/'; glob('**') does not include ''")
-    ge = [s for s in walk_no_nested(gl.node) if isinstance(s, ast.Assign) and norm_src(s.targets[0]) == 'globstar_end']
-    ctx.ob(rule, 'glob:Glob._glob/globstar_end', len(ge) == 1 and norm_src(ge[0].value) == 'this is None', repo.loc('glob', gl.node), 'globstar_end = this is None',
-           norm_src(ge[0].value) if ge else 'none')
-    rec = q.calls(lambda s: s == 'self._glob')
-    okr = len(rec) == 2 and all([norm_src(a) for a in c.args] == ['path', 'this', 'rest[:]'] for c in rec) and all(q.guarded(c, 'this', 'T') for c in rec)
-    ctx.ob(rule, 'glob:Glob._glob/hand-over', okr, repo.loc('glob', gl.node), 'if this: yield from self._glob(path, this, rest[:]) in the globstar and directory arms',
-           '; '.join(norm_src(c) for c in rec), witness="glob('a/**/b/c') must continue with `c` below every `b` found")
+            seen['dir'] += 1
+            okd = _tag(b['curdir']) == 'curdir' and _tag(b['matcher']) == f'{GM}(part.pattern)' and b['dir_only'] is True and b['deep'] is False and \
+                b['globstar_follow'] is False
+            if not okd:
+                bad['dir-arm'].append(res[:120])
+            has_rest = d.get('rest')
+            after = popped(0) if has_rest else None
+            popped_rest = "rest'" if has_rest else 'rest'
+            handover(after, 'directory')
+    if min(seen.values()) < 1 or len(paths) < 10:
+        raise AnalysisError(f'Glob._glob: arms not all reached in the table: {seen}')
+    ctx.count(f'{rule}:rows', len(paths))
+    texts = {'globstar-arm': '_glob_dir(curdir, matcher(<following or None>), <its dir_only>, deep=True, globstar_follow=part.is_globstarlong)',
+             'file-arm': 'yield from _glob_dir(curdir, matcher(part.pattern)) -- no recursion', 'dir-arm': '_glob_dir(curdir, matcher(part.pattern), True)',
+             'zero-segment': 'globstar at the end and curdir non-empty: yield os.path.join(curdir, self.empty), True -- before searching',
+             'globstar_end': 'the globstar is at the end iff no part follows', 'hand-over': 'each result goes to self._glob(path, <next part>, rest[:]) if a part remains, else it is yielded'}
+    wit = {'globstar-arm': "glob('**/x', GLOBSTAR) must search all depths; `***` follows links", 'zero-segment': "glob('d/**', GLOBSTAR) includes 'd/'; glob('**') does not include ''",
+           'hand-over': "glob('a/**/b/c') must continue with `c` below every `b` found"}
+    for key in ('globstar-arm', 'file-arm', 'dir-arm', 'zero-segment', 'globstar_end', 'hand-over'):
+        ctx.ob(rule, f'glob:Glob._glob/{key}', not bad[key], site, texts[key], f'{len(paths)} rows agree' if not bad[key] else sorted(set(bad[key]))[0][:220], witness=wit.get(key, ''))
 
 
 # ================================================================================================ C06
@@ -745,11 +914,34 @@ def rule_link_test(ctx: Ctx, rule: str) -> None:
     oki = len(ins) == 1 and norm_src(ins[0].args[1]) == '_GlobPart(gstar, True, True, is_globstarlong, True, False)'
     ctx.ob(rule, 'glob:_GlobSplit.split/implicit-part', oki, repo.loc('glob', ins[0] if ins else sp.node), '_GlobPart(gstar, True, True, is_globstarlong, True, False)',
            norm_src(ins[0].args[1]) if ins else 'none')
+    from ..symeval import focus, _tag
     st = repo.func('glob', '_GlobSplit.store')
-    gp = [c for c in walk_no_nested(st.node) if isinstance(c, ast.Call) and norm_src(c.func) == '_GlobPart']
-    okg = len(gp) == 2 and all([norm_src(a) for a in c.args] == ['v', 'magic', 'globstar', 'globstarlong', 'dir_only', 'False'] for c in gp)
-    ctx.ob(rule, 'glob:_GlobSplit.store/part-fields', okg, repo.loc('glob', st.node), '_GlobPart(v, magic, globstar, globstarlong, dir_only, False)',
-           '; '.join(norm_src(c) for c in gp))
+    bad = []
+    n = 0
+    for p, parts, comp, puts in store_rows(repo):
+        focus(p)
+        d = p.decisions
+        if not parts:
+            if puts:
+                bad.append('stores without building a part')
+            continue
+        n += 1
+        if len(parts) != 1 or len(puts) != 1:
+            bad.append(f'{len(parts)} parts built, {len(puts)} stored')
+            continue
+        a_ = parts[0][1]
+        long_ = d.get('self.globstarlong') is True and any(d.get(k) for k in ("value == '***'", "value == b'***'"))
+        star = long_ or (d.get('self.globstar') is True and any(d.get(k) for k in ("value == '**'", "value == b'**'")))
+        if len(a_) != 6 or a_[1] != Opaque('glob:_GlobSplit.is_magic(value)') and a_[1] is not d.get('glob:_GlobSplit.is_magic(value)') or \
+                a_[2] is not star or a_[3] is not long_ or a_[4] != Opaque('dir_only') or a_[5] is not False:
+            bad.append(f'_GlobPart({[_tag(x)[:30] for x in a_]}) with globstar={star} globstarlong={long_}')
+        merge = star and d.get('l') is True and d.get('l[-1].is_globstar') is True
+        e = puts[0]
+        if merge != (e[0] == 'setitem' and e[2] == -1):
+            bad.append(f'consecutive globstars={merge}: stored by {e[0]}')
+    ctx.ob(rule, 'glob:_GlobSplit.store/part-fields', not bad and n >= 8, repo.loc('glob', st.node),
+           '_GlobPart(v, magic, globstar, globstarlong, dir_only, False); a globstar directly after a globstar replaces it, everything else is appended',
+           f'{n} rows agree' if not bad else sorted(set(bad))[0][:200], witness="glob('**/**/x') must behave like '**/x'; swapped fields turn every part into a globstar")
     fields = None
     for c in walk_no_nested(repo.cls('glob', '_GlobPart').node):
         if isinstance(c, ast.Call) and norm_src(c.func) == 'namedtuple':
